@@ -42,6 +42,9 @@ def enc(x, *, quant_den=QUANT_DEN, exact_den=EXACT_DEN):
     fx = F(x)
     if fx.denominator <= exact_den and abs(fx.numerator) < (1 << 28):
         return [fx.numerator, fx.denominator]
+    # the quantisation error must stay well below the comparison tolerance 2^-12 (1 + |x|)
+    if quant_den == QUANT_DEN and abs(x) < 4096:
+        quant_den = 1 << 14
     return q(F(round(fx * quant_den), quant_den))
 
 
